@@ -577,7 +577,7 @@ func (k *Kernel) exec(r *NLReq, f *FaultSpec, pid uint32) (int, [][]byte) {
 		if !exists {
 			return int(syscall.ENOENT), nil
 		}
-		if r.Key.Kind == "urr" {
+		if r.Key.Kind == "urr" && (f == nil || !f.Empty) {
 			rep := k.makeReport(r.Key, 0, "del")
 			data = append(data, nlmsg(gtp5gFamilyID, 0, r.Seq, pid, genlBody(cmdDelURR, 0, []Attr{rep.attr()})))
 		}
